@@ -587,6 +587,24 @@ def _canonical_comparisons(tree: ast.Module) -> None:
     for node_ in ast.walk(tree):
         for child_ in ast.iter_child_nodes(node_):
             child_._parent = node_  # type: ignore[attr-defined]
+    # order comparisons: the simpler operand first (bare name < subscript / attribute < anything else < constant), e.g.
+    # `0 < op_power` reads `op_power > 0` and `self._n_inf_order > op_index` reads `op_index < self._n_inf_order`
+    def rank(e):
+        if isinstance(e, ast.UnaryOp) and isinstance(e.op, ast.USub):
+            e = e.operand
+        if isinstance(e, ast.Name) and e.id not in _SENTINEL_NAMES:
+            return 0
+        if isinstance(e, (ast.Subscript, ast.Attribute)) and not sentinel(e):
+            return 1
+        if sentinel(e):
+            return 3
+        return 2
+    mirror = {ast.Lt: ast.Gt, ast.Gt: ast.Lt, ast.LtE: ast.GtE, ast.GtE: ast.LtE}
+    for n in ast.walk(tree):
+        if isinstance(n, ast.Compare) and len(n.ops) == 1 and type(n.ops[0]) in mirror and rank(n.left) > rank(n.comparators[0]) \
+                and not any(isinstance(x, (ast.Call, ast.NamedExpr)) for side in (n.left, n.comparators[0]) for x in ast.walk(side)):
+            n.left, n.comparators[0] = n.comparators[0], n.left
+            n.ops = [mirror[type(n.ops[0])]()]
     for n in ast.walk(tree):
         if isinstance(n, ast.Compare) and len(n.ops) == 1 and isinstance(n.ops[0], (ast.Eq, ast.NotEq, ast.Is, ast.IsNot)) \
                 and sentinel(n.left) and not sentinel(n.comparators[0]):
@@ -710,6 +728,21 @@ def _fold_return_temps(tree: ast.Module) -> int:
     return n_folded
 
 
+def _canonical_two_armed_ifs(tree: ast.Module) -> int:
+    """`if not c: A` / `else: B` (both arms present, no elif) reads `if c: B` / `else: A`."""
+    n_ = 0
+    for s_ in ast.walk(tree):
+        if isinstance(s_, ast.If) and s_.orelse and not (len(s_.orelse) == 1 and isinstance(s_.orelse[0], ast.If)) \
+                and isinstance(s_.test, ast.UnaryOp) and isinstance(s_.test.op, ast.Not):
+            s_.test, s_.body, s_.orelse = s_.test.operand, s_.orelse, s_.body
+            n_ += 1
+    if n_:
+        for node in ast.walk(tree):
+            for child in ast.iter_child_nodes(node):
+                child._parent = node  # type: ignore[attr-defined]
+    return n_
+
+
 def _canonical_call_style(tree: ast.Module, all_defs: dict) -> None:
     """Calls of the package's own module-level functions in the argument style of the reference tree: an argument that the call passes
     by keyword although it is the next positional parameter (`f(a, b=b)` for `def f(a, b)`) is read positionally when the reference
@@ -805,6 +838,7 @@ class Repo:
                     child._parent = node  # type: ignore[attr-defined]
             _fold_fill_loops(tree)
             _fold_return_temps(tree)
+            _canonical_two_armed_ifs(tree)
             _inline_generators(tree)
             _inline_context_managers(tree)
             # _inline_unknown_helpers(tree) is NOT applied globally: seeing through every helper the rules do not name weakens the
